@@ -35,6 +35,7 @@ type vReq struct {
 	owner                             string // run id, or app handle for preconnect/connect
 	ch                                chan collector.RPMResponse
 	src                               collector.Collectible // the container itself: re-read when the request is answered
+	raw                               []byte                // the very bytes CollectorJSON returned (no copy): they must stay as they are until sent
 }
 
 func (r *vReq) canon() string {
@@ -203,7 +204,7 @@ func (v *vProcT) Execute(cmd *collector.RpmCmd, cs collector.RpmControls) collec
 	}
 	cmd.Data = data
 	r := &vReq{cmd: cmd.Name, run: cmd.RunID, lic: string(cmd.License), coll: cmd.Collector,
-		hdr: vCanonHdr(cmd.RequestHeadersMap), payload: vCanonPayload(cmd.Name, data), ch: make(chan collector.RPMResponse, 1), src: cs.Collectible}
+		hdr: vCanonHdr(cmd.RequestHeadersMap), payload: vCanonPayload(cmd.Name, data), ch: make(chan collector.RPMResponse, 1), src: cs.Collectible, raw: data}
 	r.owner = r.run
 	v.mu.Lock()
 	if !json.Valid(data) {
@@ -1434,7 +1435,11 @@ func vProcOp(t []string) string {
 		// the request limiter): a container handed to a request must not change while the request is in flight.  Read it again.
 		changed := ""
 		if r.src != nil && r.payload != "*" && r.cmd != collector.CommandPreconnect && r.cmd != collector.CommandConnect {
-			if again, err := r.src.CollectorJSON(false); err == nil {
+			// (first the bytes that were produced then - a body built in a recycled buffer changes under the request -, then a
+			// fresh serialisation of the container)
+			if c := vCanonPayload(r.cmd, r.raw); c != r.payload {
+				changed = " changed=" + r.cmd + ":body"
+			} else if again, err := r.src.CollectorJSON(false); err == nil {
 				if c := vCanonPayload(r.cmd, again); c != r.payload {
 					changed = " changed=" + r.cmd
 				}
